@@ -788,6 +788,33 @@ func init() {
 	registerReplay("c11rehist", histReplayer(func() bool { return false }, "C11"))
 }
 
+// notifications placed by the lifecycle callbacks on a real stream + real discovery object (the executor of C09's
+// StreamFollowsMembership): whatever the moment of the last notification - also while the AfterRebalanceEnd callback of the
+// previous rebalance is still running - the stream ends up reopened on the range of the most recent membership information
+func TestC11_FollowMembership(t *testing.T) {
+	rapid.Check(t, func(rt *rapid.T) {
+		sc := c09GenFollow(rt)
+		journal("C11", "c11follow", sc)
+		d, labels := c09ExecFollow(sc)
+		journalDone()
+		if d != "" {
+			violation(rt, "C11", "c11follow", sc, "not reopened on the range of the most recent membership information: %s", d)
+		}
+		record("C11", sc, labels["event_while_rebalance_ends"] || labels["event_while_reopening"], append(labelList(labels), "follow_cases")...)
+	})
+}
+
+func init() {
+	registerReplay("c11follow", func(raw json.RawMessage) string {
+		var sc c09Follow
+		if err := json.Unmarshal(raw, &sc); err != nil {
+			return "bad scenario: " + err.Error()
+		}
+		d, _ := c09ExecFollow(sc)
+		return d
+	})
+}
+
 func TestC11_Stress(t *testing.T) {
 	sc := c11Stress{Rebalances: scale(4000, 40000), Spinners: 8}
 	if d := c11ExecStress(sc); d != "" {
